@@ -231,17 +231,19 @@ CHECKS.append({
 CHECKS.append({
     "property_id": "C03",
     "category": "proof",
-    "technique": "Certifying exact-rational mirror of the two-phase Bland simplex + duality / Farkas / ray certificate theorems "
-                 "with verified Bool checkers evaluated in Lean on every explored LP + tableau-invariant theorem (phase 2) + "
+    "technique": "Certifying exact-rational mirror of the two-phase Bland simplex proved to always emit a valid certificate "
+                 "(simplex_certifies) + duality / Farkas / ray certificate theorems with verified Bool checkers evaluated in "
+                 "Lean on every explored LP + "
                  "verified verdict logic for the interior-point method",
     "text": "weak_duality_cert, farkas_cert, ray_cert, verdict_unique, approx_duality / ipm_optimal_test_sound, chkOptimal_sound, "
             "chkInfeasible_sound, chkUnbounded_sound, certifies_sound, certified_status_unique, chkResidual_iff; "
-            "simplex_certifies_partial (for every LP with b >= 0 and eps = 0 the mirror's read-off certificate passes the "
-            "verified checker: tableau invariant Inv, inv_step). On every run solve_lp's verdict must equal the verdict "
+            "simplex_certifies (for EVERY LP - any sign of b, either sense, any fuel - at eps = 0, whenever the mirror of "
+            "solve_lp stops with a verdict its read-off certificate passes the verified checker: general tableau invariant "
+            "GInv through phase 1, Farkas read-off, pivot-out of artificials, objective restore, phase 2). On every run solve_lp's verdict must equal the verdict "
             "certified in Lean, its point be feasible within 1e-7 with objective = c.x = certified optimum, its vertex equal the "
             "mirror's within 1e-9; solve_lp_interior's OPTIMAL / FEASIBLE claims are checked the same way and it must not raise.",
-    "note": "The phase-1 extension of the tableau invariant is open (simplex_certifies is _partial): with negative right-hand "
-            "sides the verdict is proved per input by the accepted certificate, not for all inputs. IEEE rounding not "
+    "note": "simplex_certifies is proved at eps = 0 (the code's eps thresholds are compared per input through R_trace); "
+            "IEEE rounding not "
             "modelled (tolerance gap; the forward-error bound used by chkResidual is stated in ASSUMPTIONS); the Newton step "
             "of the interior-point method is not modelled.",
 })
@@ -252,14 +254,17 @@ CHECKS.append({
                  "proved abstract branch-and-bound invariant with branching coverage; oracle + LP certificates evaluated in "
                  "Lean on every explored MILP under every configuration",
     "text": "isFeasible_iff, branch_covers, milpOracle_correct, bnb_invariant / bnb_optimal / bnb_infeasible / bnb_gap, "
-            "heuristic_incumbent_feasible, relaxation_infeasible, binary_tightening_sound. Every point solve_milp returns "
+            "heuristic_incumbent_feasible, relaxation_infeasible, binary_tightening_sound; bnb_mirror_refines, bnb_mirror_sound, "
+            "solveMilp_sound (the step mirror of solve_milp(heuristics=False) - heap order, _solve_node, _most_fractional, "
+            "_detect_binary, warm start, solution_limit, max_nodes - refines the abstract branch and bound; node LPs are "
+            "certificate-checked per input, nodeCheck_sound). Every point solve_milp returns "
             "(including solutions) passes the proved feasibility mirror in exact arithmetic with obj = c.x; OPTIMAL agrees "
             "with the certified oracle optimum within gap_tol; INFEASIBLE iff the oracle is empty; UNBOUNDED only with a "
             "relaxation ray certificate; verdict and value identical with heuristics on/off, LNS, any warm start, "
             "solution_limit and small max_nodes.",
-    "note": "The step-by-step mirror of the best-first loop (Lp.Bnb: heap order, _solve_node) is not written: the B&B theorems "
-            "are about an abstract search, tied to the code only through the per-input oracle comparison. Node-LP rounding "
-            "not modelled.",
+    "note": "R_trace = full Result equality with heuristics=False; _is_feasible itself is compared directly with the proved "
+            "mirror; the rounding / LNS heuristics enter only as filtered candidates (not modelled); node-LP rounding not "
+            "modelled; assumes CPython iterates a set of small non-negative ints in ascending order.",
 })
 
 _PENDING = "check not built yet in this round (planned in DESIGN.md §4); no claim made"
